@@ -31,6 +31,20 @@ class Rec:
         except KeyError:
             raise AttributeError(k)
 
+    # structural equality only for records that carry an explicit key
+    def __eq__(self, other):
+        if isinstance(other, Rec) and "_eqkey" in self.attrs and "_eqkey" in other.attrs:
+            return self.attrs["_eqkey"] == other.attrs["_eqkey"]
+        return self is other
+
+    def __ne__(self, other):
+        return not self.__eq__(other)
+
+    def __hash__(self):
+        if "_eqkey" in self.attrs:
+            return hash(self.attrs["_eqkey"])
+        return id(self)
+
     def __repr__(self):
         a = ",".join(f"{k}={v!r}" for k, v in self.attrs.items()
                      if not k.startswith("_"))
@@ -432,9 +446,9 @@ class Interp:
             self.unsupported(node, "comparison of a symbolic shape")
         if isinstance(a, Rec) or isinstance(b, Rec):
             if isinstance(op, ast.Eq):
-                return a is b
+                return a == b
             if isinstance(op, ast.NotEq):
-                return a is not b
+                return a != b
             self.unsupported(node, "ordering of abstract records")
         try:
             return _CMP[type(op)](a, b)
@@ -444,7 +458,7 @@ class Interp:
     def contains(self, coll, x, node):
         if isinstance(coll, (list, tuple, set, dict, str, range)):
             if isinstance(x, Rec):
-                return any(y is x for y in coll)
+                return any(y is x or y == x for y in coll)
             try:
                 return x in coll
             except TypeError:
